@@ -254,6 +254,34 @@ def check_repeated_inputs(env, acc):
                 acc.nontriv("repeated", tuple(ins), kind, inv)
 
 
+def check_ambiguous_duplicates(env, acc):
+    """A state listed twice with *different* values: the array cannot agree with both entries, but pair indexing and
+    nested indexing must still return the same value as each other (a consequence of the property that stays defined),
+    and that value must be one of the array's entries for the pair."""
+    S = lw.State
+    states = [(1, 0, 1), (0, 1, 1), (2, 0, 0), (0, 2, 0)]
+    n = 0
+    for rtype, vals in (("probability", [0.125, 0.25, 0.5, 0.0625, 0.375, 0.03125, 0.75, 0.015625, 0.09375]),
+                        ("probability_amplitude", [0.1 + 0.2j, 0.3, 0.4, 0.5j, 0.6, 0.7 - 0.1j, -0.2, 0.15j, 0.05])):
+        for ins in itertools.product(states[:3], repeat=2):
+            for outs in itertools.product(states[1:], repeat=3):
+                if len(set(ins)) == 2 and len(set(outs)) == 3:
+                    continue            # no repeats: covered by the main stage
+                arr = np.array(vals[: 2 * 3]).reshape(2, 3) + np.arange(2).reshape(2, 1) * 0.001
+                r = SimulationResult(arr.copy(), rtype, inputs=[S(list(i)) for i in ins], outputs=[S(list(o)) for o in outs])
+                case = {"scenario": "ambiguous_duplicates", "inputs": ins, "outputs": outs, "type": rtype, "seed": env.seed}
+                acc.tick("executions"); acc.tick("transitions"); n += 1
+                for i in set(ins):
+                    for o in set(outs):
+                        pair, nested = r[S(list(i)), S(list(o))], r[S(list(i))][S(list(o))]
+                        cands = [arr[a, b] for a, x in enumerate(ins) for b, y in enumerate(outs) if x == i and y == o]
+                        if pair != nested or not any(pair == c for c in cands):
+                            acc.violation("pair_and_nested_indexing_disagree", case,
+                                          {"input": i, "output": o, "pair": complex(pair), "nested": complex(nested)})
+                acc.state("dup", ins, outs, rtype)
+    return n
+
+
 def run(tier, seed):
     env = Env(seed)
     st2 = ref_fock.basis_upto(2, 3)              # 10 states over 2 modes
@@ -290,7 +318,7 @@ def run(tier, seed):
         return acc
 
     acc = kernel.pmap(shard_fn, kernel.interleave(jobs, kernel.NPROC * 4))
-    rep = kernel.Acc(); check_repeated_inputs(env, rep); check_real_amplitudes(env, rep); acc.merge(rep)
+    rep = kernel.Acc(); check_repeated_inputs(env, rep); check_real_amplitudes(env, rep); check_ambiguous_duplicates(env, rep); acc.merge(rep)
     meta = {
         "rule": "SimulationResult: inputs = ordered selections of <= 2 and outputs = ordered selections of <= 3 distinct Fock "
                 "states (2 modes <= 3 photons; 3 modes <= 2 photons), two valuations (injective fingerprint so that any "
@@ -300,7 +328,8 @@ def run(tier, seed):
                 "<= 3 states with counts in {1,2,5}. distinct_nontrivial = contents whose outputs have coinciding images.",
         "exhaustive": True,
         "bounds": {"containers": len(jobs)},
-        "assumptions": ["lists with repeated states are outside the alphabet (a dict-backed container cannot represent them)"],
+        "assumptions": ["lists with repeated states: equal rows for the mappings stage; with different values only "
+                        "pair == nested indexing is required (a dict-backed container cannot give the array's value for both)"],
     }
     return acc, meta
 
@@ -311,6 +340,8 @@ def replay(w, acc):
     env = Env(case.get("seed", 0))
     if case.get("scenario") == "real_amplitudes":
         check_real_amplitudes(env, acc)
+    elif case.get("scenario") == "ambiguous_duplicates":
+        check_ambiguous_duplicates(env, acc)
     elif case.get("scenario") == "repeated_inputs":
         check_repeated_inputs(env, acc)
     elif "counts" in case:
